@@ -11,7 +11,9 @@ RULE = (
     "full product n x window_length x fh (every non-empty subset of {1..4}) x strategy "
     "(direct, recursive, multioutput, dirrec) x scitype (tabular, time-series) x exogenous "
     "columns {0,1,2} x series dtype {float, int64; rotated with the case index} x history {fit->predict, fit->update(batch, update_params False/True)->"
-    "predict, refit of a forecaster used before with another window length}; index start rotated by case index+seed. Oracle: recording regressors + a "
+    "predict, refit of a forecaster used before with another window length, fit->predict->predict, "
+    "fit->predict->update(refit)->predict, recursive: fit->update_predict over a splitter with "
+    "another horizon}; index start rotated by case index+seed. Oracle: recording regressors + a "
     "plain-loop reference tabulariser + tag-decoding leak monitor. non-trivial = feasible "
     "configuration whose training rows and prediction inputs were compared."
 )
@@ -35,7 +37,10 @@ def gen_cases(tier, seed):
                 for strat in STRATS:
                     for sci in ("tab", "ts"):
                         for nx in (0, 1, 2):
-                            for hist in ("fp", "fup", "fUp", "Rfp"):
+                            hists = ["fp", "fup", "fUp", "Rfp", "fpp", "fpUp"]
+                            if strat == "recursive" and nx == 0:
+                                hists.append("fQ")
+                            for hist in hists:
                                 i += 1
                                 yield dict(n=n, W=W, fh=fh, strategy=strat, sci=sci, nx=nx,
                                            hist=hist, start=7 if (i + seed) % 2 else 0,
@@ -88,7 +93,7 @@ def run_case(case):
     H = fh[-1]
     doubles.reset_tokens()
     reg = doubles.RecRegressor() if sci == "tab" else doubles.RecTSRegressor()
-    extra = 2 if hist in ("fup", "fUp") else 0
+    extra = 2 if hist in ("fup", "fUp", "fpUp") else (fh[-1] + 4 if hist == "fQ" else 0)
     y_all, X_all = _data(n, nx, start, extra, case.get("dtype", "float"))
     y, X = y_all.iloc[:n], (None if X_all is None else X_all.iloc[:n])
     f = make_reduction(reg, strategy=strat, window_length=W)
@@ -174,10 +179,103 @@ def run_case(case):
     if res.violations:
         return res
 
+    def check_predict(n_eff):
+        c = n_eff - 1  # cutoff position
+        if f.cutoff != start + c:
+            res.violate("cutoff", "cutoff is not the last observed time point",
+                        expected=start + c, observed=f.cutoff)
+            return
+        Xf = None
+        if nx and strat == "recursive":
+            t = np.arange(n_eff, n_eff + H, dtype=float)
+            Xf = pd.DataFrame({"x%d" % j: 10000.0 * (j + 1) + t for j in range(nx)},
+                              index=pd.RangeIndex(start + n_eff, start + n_eff + H))
+        ests = [f.estimator_] if strat in ("recursive", "multioutput") else list(f.estimators_)
+        for e in ests:
+            e.pred_X_, e.pred_out_ = [], []
+        p = call(lambda: f.predict(X=Xf) if Xf is not None else f.predict())
+        if not p.ok:
+            res.violate("%s:predict" % strat, "predict raised", observed=p.brief())
+            return
+        got = p.value
+        lab = [start + c + h for h in fh]
+        if list(got.index) != lab:
+            res.violate("predict:index", "forecast index != cutoff + fh", expected=lab,
+                        observed=list(got.index))
+            return
+        lastwin = [[1000.0 + t for t in range(c - W + 1, c + 1)]]
+        for j in range(nx):
+            lastwin.append([10000.0 * (j + 1) + t for t in range(c - W + 1, c + 1)])
+
+        def shape_in(flat):
+            a = np.array(flat, dtype=float)
+            return a.reshape(1, -1) if sci == "tab" else a.reshape(1, a.shape[0], a.shape[1])
+
+        vals = [float(v) for v in got.values]
+        if strat in ("direct", "multioutput"):
+            for i, e in enumerate(ests):
+                if len(e.pred_X_) != 1 or not np.array_equal(e.pred_X_[0], shape_in(lastwin)):
+                    res.violate("%s:predX" % strat, "prediction input is not the last "
+                                "window_length observed values", expected=lastwin,
+                                observed=[x.tolist() for x in e.pred_X_])
+                    return
+            if strat == "direct":
+                exp = [float(e.pred_out_[0][0, 0]) for e in ests]
+            else:
+                exp = [float(v) for v in ests[0].pred_out_[0][0]]
+            if vals != exp:
+                res.violate("%s:predy" % strat, "forecast for step h is not the regressor output "
+                            "for step h", expected=exp, observed=vals)
+        elif strat == "recursive":
+            e = ests[0]
+            if len(e.pred_X_) != H:
+                res.violate("recursive:ncalls", "recursive strategy must call the regressor once "
+                            "per step up to max(fh)", expected=H, observed=len(e.pred_X_))
+                return
+            toks = []
+            for i in range(H):
+                ywin = [1000.0 + t for t in range(c - W + 1 + i, c + 1)] + toks
+                ywin = ywin[-W:] if len(ywin) > W else ywin
+                # window of the W values preceding time c+1+i: observed then earlier tokens
+                ywin = ([1000.0 + t for t in range(c + 1 + i - W, c + 1)] + toks)[-W:]
+                flat = [ywin]
+                for j in range(nx):
+                    flat.append([10000.0 * (j + 1) + t for t in range(c + 1 + i - W, c + 1 + i)])
+                if not np.array_equal(e.pred_X_[i], shape_in(flat)):
+                    res.violate("recursive:feedback", "window for step %d does not hold the "
+                                "earlier predictions as newest lags" % (i + 1), expected=flat,
+                                observed=e.pred_X_[i].tolist())
+                    return
+                toks.append(float(e.pred_out_[i][0, 0]))
+            exp = [toks[h - 1] for h in fh]
+            if vals != exp:
+                res.violate("recursive:predy", "forecast for step h is not the regressor output "
+                            "for step h", expected=exp, observed=vals)
+        else:  # dirrec
+            toks = []
+            for i, e in enumerate(ests):
+                flat = [lastwin[0] + toks]
+                if len(e.pred_X_) != 1 or not np.array_equal(e.pred_X_[0], shape_in(flat)):
+                    res.violate("dirrec:feedback", "dirrec estimator %d input is not window + "
+                                "earlier predictions" % i, expected=flat,
+                                observed=[x.tolist() for x in e.pred_X_])
+                    return
+                toks.append(float(e.pred_out_[0][0, 0]))
+            if vals != toks:
+                res.violate("dirrec:predy", "forecast for step h is not the regressor output",
+                            expected=toks, observed=vals)
+
     # ---- optional update
     n_eff = n
-    if hist in ("fup", "fUp"):
-        up = hist == "fUp"
+    if hist in ("fpp", "fpUp"):
+        check_predict(n)
+        if res.violations:
+            return res
+    if hist == "fQ":
+        _update_predict_other_horizon(res, f, y_all, n, W, fh, start)
+        return res
+    if hist in ("fup", "fUp", "fpUp"):
+        up = hist != "fup"
         yb = y_all.iloc[n:n + 2]
         Xb = None if X_all is None else X_all.iloc[n:n + 2]
         o = call(lambda: f.update(yb.copy(), None if Xb is None else Xb.copy(),
@@ -190,90 +288,46 @@ def run_case(case):
             check_fit(f, n_eff)
             if res.violations:
                 return res
-    c = n_eff - 1  # cutoff position
-    if f.cutoff != start + c:
-        res.violate("cutoff", "cutoff is not the last observed time point",
-                    expected=start + c, observed=f.cutoff)
-        return res
-
-    # ---- prediction inputs and outputs
-    Xf = None
-    if nx and strat == "recursive":
-        t = np.arange(n_eff, n_eff + H, dtype=float)
-        Xf = pd.DataFrame({"x%d" % j: 10000.0 * (j + 1) + t for j in range(nx)},
-                          index=pd.RangeIndex(start + n_eff, start + n_eff + H))
-    ests = [f.estimator_] if strat in ("recursive", "multioutput") else list(f.estimators_)
-    for e in ests:
-        e.pred_X_, e.pred_out_ = [], []
-    p = call(lambda: f.predict(X=Xf) if Xf is not None else f.predict())
-    if not p.ok:
-        res.violate("%s:predict" % strat, "predict raised", observed=p.brief())
-        return res
-    got = p.value
-    lab = [start + c + h for h in fh]
-    if list(got.index) != lab:
-        res.violate("predict:index", "forecast index != cutoff + fh", expected=lab,
-                    observed=list(got.index))
-        return res
-    lastwin = [[1000.0 + t for t in range(c - W + 1, c + 1)]]
-    for j in range(nx):
-        lastwin.append([10000.0 * (j + 1) + t for t in range(c - W + 1, c + 1)])
-
-    def shape_in(flat):
-        a = np.array(flat, dtype=float)
-        return a.reshape(1, -1) if sci == "tab" else a.reshape(1, a.shape[0], a.shape[1])
-
-    vals = [float(v) for v in got.values]
-    if strat in ("direct", "multioutput"):
-        for i, e in enumerate(ests):
-            if len(e.pred_X_) != 1 or not np.array_equal(e.pred_X_[0], shape_in(lastwin)):
-                res.violate("%s:predX" % strat, "prediction input is not the last "
-                            "window_length observed values", expected=lastwin,
-                            observed=[x.tolist() for x in e.pred_X_])
-                return res
-        if strat == "direct":
-            exp = [float(e.pred_out_[0][0, 0]) for e in ests]
-        else:
-            exp = [float(v) for v in ests[0].pred_out_[0][0]]
-        if vals != exp:
-            res.violate("%s:predy" % strat, "forecast for step h is not the regressor output "
-                        "for step h", expected=exp, observed=vals)
-    elif strat == "recursive":
-        e = ests[0]
-        if len(e.pred_X_) != H:
-            res.violate("recursive:ncalls", "recursive strategy must call the regressor once "
-                        "per step up to max(fh)", expected=H, observed=len(e.pred_X_))
-            return res
-        toks = []
-        for i in range(H):
-            ywin = [1000.0 + t for t in range(c - W + 1 + i, c + 1)] + toks
-            ywin = ywin[-W:] if len(ywin) > W else ywin
-            # window of the W values preceding time c+1+i: observed then earlier tokens
-            ywin = ([1000.0 + t for t in range(c + 1 + i - W, c + 1)] + toks)[-W:]
-            flat = [ywin]
-            for j in range(nx):
-                flat.append([10000.0 * (j + 1) + t for t in range(c + 1 + i - W, c + 1 + i)])
-            if not np.array_equal(e.pred_X_[i], shape_in(flat)):
-                res.violate("recursive:feedback", "window for step %d does not hold the "
-                            "earlier predictions as newest lags" % (i + 1), expected=flat,
-                            observed=e.pred_X_[i].tolist())
-                return res
-            toks.append(float(e.pred_out_[i][0, 0]))
-        exp = [toks[h - 1] for h in fh]
-        if vals != exp:
-            res.violate("recursive:predy", "forecast for step h is not the regressor output "
-                        "for step h", expected=exp, observed=vals)
-    else:  # dirrec
-        toks = []
-        for i, e in enumerate(ests):
-            flat = [lastwin[0] + toks]
-            if len(e.pred_X_) != 1 or not np.array_equal(e.pred_X_[0], shape_in(flat)):
-                res.violate("dirrec:feedback", "dirrec estimator %d input is not window + "
-                            "earlier predictions" % i, expected=flat,
-                            observed=[x.tolist() for x in e.pred_X_])
-                return res
-            toks.append(float(e.pred_out_[0][0, 0]))
-        if vals != toks:
-            res.violate("dirrec:predy", "forecast for step h is not the regressor output",
-                        expected=toks, observed=vals)
+    check_predict(n_eff)
     return res
+
+
+def _update_predict_other_horizon(res, f, y_all, n, W, fh, start):
+    """recursive reducer fitted with horizon fh, then update_predict over a splitter whose
+    horizon differs: the forecast for step h of every window is the regressor output for step h"""
+    from sktime.forecasting.model_selection import SlidingWindowSplitter
+
+    fh2 = [h + 1 for h in fh]
+    H2 = fh2[-1]
+    y_new = y_all.iloc[n:n + H2 + 3]  # three windows whose whole horizon lies inside y_new
+    cv = SlidingWindowSplitter(fh=fh2, window_length=1, step_length=1, start_with_window=True)
+    e = f.estimator_
+    e.pred_X_, e.pred_out_ = [], []
+    o = call(lambda: f.update_predict(y_new.copy(), cv, update_params=False))
+    if not o.ok:
+        res.violate("recursive:update_predict", "update_predict with another horizon raised",
+                    observed=o.brief())
+        return
+    got = o.value
+    nwin = 3
+    if len(e.pred_out_) != nwin * H2:
+        res.violate("recursive:update_predict:ncalls", "recursive strategy must call the "
+                    "regressor once per step up to max(fh) for every window",
+                    expected=nwin * H2, observed=len(e.pred_out_))
+        return
+    for k in range(nwin):
+        toks = [float(e.pred_out_[k * H2 + i][0, 0]) for i in range(H2)]
+        exp = [toks[h - 1] for h in fh2]
+        c = start + n + k  # cutoff label of window k
+        lab = [c + h for h in fh2]
+        if isinstance(got, pd.DataFrame):
+            col = got.iloc[:, k].dropna().sort_index()
+            gi, gv = [int(i) for i in col.index], [float(v) for v in col.values]
+        else:
+            gi, gv = [int(got.index[k])], [float(got.iloc[k])]
+        if gi != lab or gv != exp:
+            res.violate("recursive:update_predict:predy", "forecast for step h (update_predict "
+                        "with a horizon other than the one given to fit) is not the regressor "
+                        "output for step h", expected=dict(index=lab, values=exp),
+                        observed=dict(index=gi, values=gv))
+            return
